@@ -126,7 +126,7 @@ def monitor(ck, sc, r):
             viol("future resolved without metadata although acks != 0", {"send": s})
             continue
         lg = r["logs"][str(s["p"])]
-        at = [x for x in lg["records"] if x["offset"] == md["offset"]]
+        at = [x for x in lg["records"] if x["offset"] == md["offset"] + s.get("batch_index", 0)]
         if md["partition"] != s["p"] or md["topic"] != "t":
             viol("metadata names the wrong partition", {"send": s})
         if not at or at[0]["rid"] != s["rid"]:
@@ -134,7 +134,7 @@ def monitor(ck, sc, r):
             continue
         rec = at[0]
         if pv >= 2:
-            if rec["ts"] is not None and md["timestamp"] != rec["ts"]:
+            if rec["ts"] is not None and md["timestamp"] != rec["ts"] and "batch_index" not in s:
                 viol("metadata timestamp differs from the record's timestamp in the log",
                      {"send": s, "log_record": rec})
             if md["timestamp_type"] != lg["ts_type"]:
